@@ -19,6 +19,8 @@ import (
 type rRoute struct {
 	Method string `json:"method"`
 	Path   string `json:"path"`
+	// Direct: registered through the public Router.Add (e.Router().Add) instead of Echo.Add
+	Direct bool `json:"direct,omitempty"`
 }
 
 type rReq struct {
@@ -78,14 +80,19 @@ func splitAllow(h string) []string {
 func rAddRoutes(e *echo.Echo, routes []rRoute, from int, cur *rObs) {
 	for i := from; i < len(routes); i++ {
 		i := i
-		e.Add(routes[i].Method, routes[i].Path, func(c echo.Context) error {
+		h := func(c echo.Context) error {
 			cur.Kind = 'D'
 			cur.Hid = i
 			cur.PPath = c.Path()
 			cur.Names = append([]string{}, c.ParamNames()...)
 			cur.Values = append([]string{}, c.ParamValues()...)
 			return c.NoContent(http.StatusOK)
-		})
+		}
+		if routes[i].Direct {
+			e.Router().Add(routes[i].Method, routes[i].Path, h)
+		} else {
+			e.Add(routes[i].Method, routes[i].Path, h)
+		}
 	}
 }
 
@@ -320,6 +327,7 @@ type rGenOpts struct {
 	escaped  bool // allow `\:` segments
 	maxRoute int
 	dups     bool // allow a route to be registered again (same method, same normalised pattern)
+	entry    bool // vary the entry point (Router.Add) and the leading slash
 }
 
 func rGenSegment(r *rand.Rand, o rGenOpts) string {
@@ -426,10 +434,19 @@ func rGenTable(r *rand.Rand, o rGenOpts) []rRoute {
 			p = strings.Replace(p, ":", ":re", 1) // the re-registration names its parameter differently
 		}
 		seen[key] = true
-		out = append(out, rRoute{m, p})
+		rt := rRoute{Method: m, Path: p}
+		if o.entry {
+			if r.Intn(8) == 0 {
+				rt.Direct = true
+			}
+			if r.Intn(10) == 0 {
+				rt.Path = strings.TrimPrefix(rt.Path, "/") // registered without the leading slash
+			}
+		}
+		out = append(out, rt)
 	}
 	if len(out) == 0 {
-		out = append(out, rRoute{"GET", "/"})
+		out = append(out, rRoute{Method: "GET", Path: "/"})
 	}
 	return out
 }
